@@ -548,7 +548,16 @@ pub fn minimise(prop: &Property, sc: &Scenario, choices: Vec<u64>, clause: &str,
             _ => None,
         }
     };
-    let (mut best, mut viol) = match try_list(&choices) {
+    // The starting list gets several attempts: if the code under test has entropy of its own, the
+    // clause may hold in one execution of the very list that violated it in the batch.
+    let mut start = None;
+    for _ in 0..6 {
+        start = try_list(&choices);
+        if start.is_some() {
+            break;
+        }
+    }
+    let (mut best, mut viol) = match start {
         Some(x) => x,
         None => {
             return Minimised {
